@@ -370,6 +370,8 @@ def oracle(c, r):
             return ('fifo', 'delivered %r, the peer sent %r' % ([d.hex() for d in delivered], [s.hex() for s in sent]))
         nq = r[i + 2]
         ts = r[i]
+        if ts == 4 and r[i + 1] == 1 and STEP_PCLOSE not in c.ints[1:]:
+            return ('thread-dead-while-open', 'the connection is open and its peer connected, but the receiver thread has ended: frames the peer sends from now on are never delivered')
         if c.ints[1:].count(STEP_CLOSE) and c.ints[-1] == STEP_CLOSE and ts not in (0, 4):
             return ('thread-alive-after-close', 'receiver thread state %d after close()' % ts)
     return None
